@@ -47,9 +47,12 @@ VARIABLES
   cell,           \* writes of the current round through $: [root |-> overlay of the root cell, els |-> element index (1-based) -> overlay]
   fw,             \* the $file cell: 0 = names file `file`; r > 0 = overwritten by rule r; -1 = overwritten in an earlier round of this value (open)
   obs,            \* history of activations
-  outcome         \* "running" | "ok"
+  outcome,        \* "running" | "ok"
+  glob            \* the program's own (global) variable g: -1 = never assigned, n >= 0 = that number.  The schedule
+                  \* never touches it: what a body assigned is what every later pattern and body reads, whatever
+                  \* lies between them (the next rule, element, round, JSON value, file)
 
-dvars == <<rules, files, part, phase, level, fi, vi, si, ei, ri, tested, signal, dollar, index, file, cell, fw, obs, outcome>>
+dvars == <<rules, files, part, phase, level, fi, vi, si, ei, ri, tested, signal, dollar, index, file, cell, fw, obs, outcome, glob>>
 
 Kinds == {"B", "BF", "P", "EF", "E"}
 
@@ -68,7 +71,9 @@ N(k) == Len(part[k])
 \* cell (`$ = v`, v a scalar); <<"p", r>> rule r assigned the member p of the object in the cell (`$.p = v`)
 NoW == <<"-", 0>>
 NoCell == [root |-> NoW, els |-> <<>>]
-Writes == {"none", "sd", "sf", "sm"}      \* nothing | `$ = v` | `$file = v` | `$.p = v`
+GWrites == {"g0", "g1", "ginc"}           \* `g = 0` | `g = 1` | `g++` (an unset variable counts as 0: DESIGN.md 3.1)
+Writes == {"none", "sd", "sf", "sm"} \cup GWrites     \* nothing | `$ = v` | `$file = v` | `$.p = v` | a write to g
+GAfter(g, w) == CASE w = "g0" -> 0 [] w = "g1" -> 1 [] w = "ginc" -> (IF g < 0 THEN 1 ELSE g + 1) [] OTHER -> g
 ElOv(c, e) == IF e \in DOMAIN c.els THEN c.els[e] ELSE NoW
 SetEl(c, e, ov) == [c EXCEPT !.els = [x \in DOMAIN c.els \cup {e} |-> IF x = e THEN ov ELSE c.els[x]]]
 
@@ -86,7 +91,7 @@ Written(w, r) == IF w = "sd" THEN <<"w", r>> ELSE <<"p", r>>
 \* `$ = v` in an ENDFILE rule rebinds the rule's own $: the next ENDFILE rule is bound to the selected root again
 RuleLocal(w) == phase \in {"begin", "end"} \/ (phase = "files" /\ level = "ef" /\ w = "sd")
 CellAfter(w, r) ==
-  IF w \in {"none", "sf"} \/ RuleLocal(w) THEN cell
+  IF w \in {"none", "sf"} \cup GWrites \/ RuleLocal(w) THEN cell
   ELSE IF InArrayRound THEN SetEl(cell, ei + 1, Written(w, r))
   ELSE [cell EXCEPT !.root = Written(w, r)]
 \* a member can be assigned only in an object: not in null (BEGIN, END), not in a cell holding a scalar
@@ -112,7 +117,7 @@ Entry(t, b, sig, w) ==
    d |-> dollar, x |-> index, fb |-> file, pos |-> Pos(IF t = "test" THEN 0 ELSE 1),
    w |-> w, cw |-> DollarW,
    ews |-> (IF phase = "files" /\ level \in {"bf", "ef"} /\ EffN >= 0 THEN cell.els ELSE <<>>),
-   fw |-> fw, en |-> (IF phase = "files" THEN EffN ELSE -1),
+   fw |-> fw, g |-> glob, en |-> (IF phase = "files" THEN EffN ELSE -1),
    dopen |-> (phase = "files" /\ level = "ef" /\ RootWhole)]
 
 Push(e) ==
@@ -126,7 +131,7 @@ Load(rs, fs) ==
   /\ fi' = 0 /\ vi' = 0 /\ si' = 0 /\ ei' = -1 /\ ri' = 1
   /\ tested' = FALSE /\ signal' = "none"
   /\ dollar' = DOpen /\ index' = -1 /\ file' = 0 /\ cell' = NoCell /\ fw' = 0
-  /\ obs' = <<>> /\ outcome' = "running"
+  /\ obs' = <<>> /\ outcome' = "running" /\ glob' = -1
 
 Idle ==
   /\ rules = <<>> /\ files = <<>> /\ part = NoPart
@@ -134,7 +139,7 @@ Idle ==
   /\ fi = 0 /\ vi = 0 /\ si = 0 /\ ei = -1 /\ ri = 1
   /\ tested = FALSE /\ signal = "none"
   /\ dollar = DOpen /\ index = -1 /\ file = 0 /\ cell = NoCell /\ fw = 0
-  /\ obs = <<>> /\ outcome = "running"
+  /\ obs = <<>> /\ outcome = "running" /\ glob = -1
 
 \* back to the idle state (between the runs of a concatenated trace)
 Unload ==
@@ -143,7 +148,7 @@ Unload ==
   /\ fi' = 0 /\ vi' = 0 /\ si' = 0 /\ ei' = -1 /\ ri' = 1
   /\ tested' = FALSE /\ signal' = "none"
   /\ dollar' = DOpen /\ index' = -1 /\ file' = 0 /\ cell' = NoCell /\ fw' = 0
-  /\ obs' = <<>> /\ outcome' = "running"
+  /\ obs' = <<>> /\ outcome' = "running" /\ glob' = -1
 
 Quiet == signal = "none" /\ phase # "done"
 
@@ -152,7 +157,7 @@ ReadRules ==
   /\ phase = "parsed"
   /\ part' = [k \in Kinds |-> OfKind(rules, k)]
   /\ phase' = "begin" /\ ri' = 1 /\ dollar' = DOpen
-  /\ UNCHANGED <<rules, files, level, fi, vi, si, ei, tested, signal, index, file, cell, fw, obs, outcome>>
+  /\ UNCHANGED <<rules, files, level, fi, vi, si, ei, tested, signal, index, file, cell, fw, obs, outcome, glob>>
 
 \* ---- a rule of kind B / BF / EF / E runs (no pattern); sig: the signal its body raises, w: what it writes
 RunPlain(sig, w) ==
@@ -161,6 +166,7 @@ RunPlain(sig, w) ==
   /\ obs' = Push(Entry("body", TRUE, sig, w))
   /\ cell' = CellAfter(w, part[CurKind][ri])
   /\ fw' = (IF w = "sf" THEN part[CurKind][ri] ELSE fw)
+  /\ glob' = GAfter(glob, w)
   /\ signal' = sig /\ ri' = ri + 1
   /\ UNCHANGED <<rules, files, part, phase, level, fi, vi, si, ei, tested, dollar, index, file, outcome>>
 
@@ -168,27 +174,27 @@ RunBegin(sig, w) == Quiet /\ phase = "begin" /\ RunPlain(sig, w)
 EndBegin ==
   /\ Quiet /\ phase = "begin" /\ ri > N("B")
   /\ phase' = "files" /\ level' = "file" /\ fi' = 0
-  /\ UNCHANGED <<rules, files, part, vi, si, ei, ri, tested, signal, dollar, index, file, cell, fw, obs, outcome>>
+  /\ UNCHANGED <<rules, files, part, vi, si, ei, ri, tested, signal, dollar, index, file, cell, fw, obs, outcome, glob>>
 
 \* ---- for _, file := range files
 NextFile ==
   /\ Quiet /\ phase = "files" /\ level = "file" /\ fi < Len(files)
   /\ fi' = fi + 1 /\ vi' = 0 /\ level' = "value"
-  /\ UNCHANGED <<rules, files, part, phase, si, ei, ri, tested, signal, dollar, index, file, cell, fw, obs, outcome>>
+  /\ UNCHANGED <<rules, files, part, phase, si, ei, ri, tested, signal, dollar, index, file, cell, fw, obs, outcome, glob>>
 EndFiles ==
   /\ Quiet /\ phase = "files" /\ level = "file" /\ fi = Len(files)
   /\ phase' = "end" /\ level' = "-" /\ ri' = 1 /\ dollar' = DNull
-  /\ UNCHANGED <<rules, files, part, fi, vi, si, ei, tested, signal, index, file, cell, fw, obs, outcome>>
+  /\ UNCHANGED <<rules, files, part, fi, vi, si, ei, tested, signal, index, file, cell, fw, obs, outcome, glob>>
 
 \* ---- for d.More(): decode the next value; $file is published: a fresh cell naming the file
 NextValue ==
   /\ Quiet /\ phase = "files" /\ level = "value" /\ vi < Len(files[fi])
   /\ vi' = vi + 1 /\ si' = 0 /\ file' = fi /\ fw' = 0 /\ level' = "sel"
-  /\ UNCHANGED <<rules, files, part, phase, fi, ei, ri, tested, signal, dollar, index, cell, obs, outcome>>
+  /\ UNCHANGED <<rules, files, part, phase, fi, ei, ri, tested, signal, dollar, index, cell, obs, outcome, glob>>
 EndValues ==
   /\ Quiet /\ phase = "files" /\ level = "value" /\ vi = Len(files[fi])
   /\ level' = "file"
-  /\ UNCHANGED <<rules, files, part, phase, fi, vi, si, ei, ri, tested, signal, dollar, index, file, cell, fw, obs, outcome>>
+  /\ UNCHANGED <<rules, files, part, phase, fi, vi, si, ei, ri, tested, signal, dollar, index, file, cell, fw, obs, outcome, glob>>
 
 \* ---- for _, rootCell := range rootCells (one per selector; one if there is none): the root is selected
 \* from the value as read, whatever the rules did to the roots of earlier rounds
@@ -196,36 +202,36 @@ NextSelector ==
   /\ Quiet /\ phase = "files" /\ level = "sel" /\ si < Len(files[fi][vi])
   /\ si' = si + 1 /\ dollar' = DRoot(fi, vi, si + 1) /\ ri' = 1 /\ level' = "bf"
   /\ cell' = NoCell /\ fw' = (IF fw = 0 THEN 0 ELSE -1)
-  /\ UNCHANGED <<rules, files, part, phase, fi, vi, ei, tested, signal, index, file, obs, outcome>>
+  /\ UNCHANGED <<rules, files, part, phase, fi, vi, ei, tested, signal, index, file, obs, outcome, glob>>
 EndSelectors ==
   /\ Quiet /\ phase = "files" /\ level = "sel" /\ si = Len(files[fi][vi])
   /\ level' = "value"
-  /\ UNCHANGED <<rules, files, part, phase, fi, vi, si, ei, ri, tested, signal, dollar, index, file, cell, fw, obs, outcome>>
+  /\ UNCHANGED <<rules, files, part, phase, fi, vi, si, ei, ri, tested, signal, dollar, index, file, cell, fw, obs, outcome, glob>>
 
 \* ---- BEGINFILE rules, $ = the selected root
 RunBeginFile(sig, w) == Quiet /\ phase = "files" /\ level = "bf" /\ RunPlain(sig, w)
 EnterPatternRules ==
   /\ Quiet /\ phase = "files" /\ level = "bf" /\ ri > N("BF")
   /\ level' = "elem" /\ ei' = -1
-  /\ UNCHANGED <<rules, files, part, phase, fi, vi, si, ri, tested, signal, dollar, index, file, cell, fw, obs, outcome>>
+  /\ UNCHANGED <<rules, files, part, phase, fi, vi, si, ri, tested, signal, dollar, index, file, cell, fw, obs, outcome, glob>>
 
 \* ---- evalPatternRules: one round per element of an array root, exactly one round otherwise
 NextElement ==
   /\ Quiet /\ phase = "files" /\ level = "elem" /\ EffN >= 0 /\ ei < EffN - 1
   /\ ei' = ei + 1 /\ index' = ei + 1 /\ dollar' = DElem(fi, vi, si, ei + 1)
   /\ ri' = 1 /\ level' = "rule"
-  /\ UNCHANGED <<rules, files, part, phase, fi, vi, si, tested, signal, file, cell, fw, obs, outcome>>
+  /\ UNCHANGED <<rules, files, part, phase, fi, vi, si, tested, signal, file, cell, fw, obs, outcome, glob>>
 RootRound ==
   /\ Quiet /\ phase = "files" /\ level = "elem" /\ EffN = -1 /\ ei = -1
   /\ ei' = 0 /\ dollar' = DRoot(fi, vi, si)
   /\ ri' = 1 /\ level' = "rule"
-  /\ UNCHANGED <<rules, files, part, phase, fi, vi, si, tested, signal, index, file, cell, fw, obs, outcome>>
+  /\ UNCHANGED <<rules, files, part, phase, fi, vi, si, tested, signal, index, file, cell, fw, obs, outcome, glob>>
 EndElements ==
   /\ Quiet /\ phase = "files" /\ level = "elem"
   /\ \/ EffN >= 0 /\ ei = EffN - 1
      \/ EffN = -1 /\ ei = 0
   /\ level' = "ef" /\ ri' = 1 /\ dollar' = DRoot(fi, vi, si)
-  /\ UNCHANGED <<rules, files, part, phase, fi, vi, si, ei, tested, signal, index, file, cell, fw, obs, outcome>>
+  /\ UNCHANGED <<rules, files, part, phase, fi, vi, si, ei, tested, signal, index, file, cell, fw, obs, outcome, glob>>
 
 \* ---- evalRules: source order; body iff pattern absent or truthy; next ends the round
 TestPattern(b) ==
@@ -234,23 +240,24 @@ TestPattern(b) ==
   /\ rules[part["P"][ri]].haspat \/ b          \* no pattern: always matches
   /\ obs' = Push(Entry("test", b, "none", "none"))
   /\ IF b THEN tested' = TRUE /\ ri' = ri ELSE tested' = FALSE /\ ri' = ri + 1
-  /\ UNCHANGED <<rules, files, part, phase, level, fi, vi, si, ei, signal, dollar, index, file, cell, fw, outcome>>
+  /\ UNCHANGED <<rules, files, part, phase, level, fi, vi, si, ei, signal, dollar, index, file, cell, fw, outcome, glob>>
 RunBody(sig, w) ==
   /\ Quiet /\ phase = "files" /\ level = "rule" /\ tested
   /\ sig \in {"none", "next", "exit"} /\ CanWrite(w)
   /\ obs' = Push(Entry("body", TRUE, sig, w))
   /\ cell' = CellAfter(w, part["P"][ri])
   /\ fw' = (IF w = "sf" THEN part["P"][ri] ELSE fw)
+  /\ glob' = GAfter(glob, w)
   /\ tested' = FALSE /\ signal' = sig /\ ri' = ri + 1
   /\ UNCHANGED <<rules, files, part, phase, level, fi, vi, si, ei, dollar, index, file, outcome>>
 ConsumeNext ==
   /\ phase = "files" /\ level = "rule" /\ signal = "next"
   /\ signal' = "none" /\ level' = "elem"
-  /\ UNCHANGED <<rules, files, part, phase, fi, vi, si, ei, ri, tested, dollar, index, file, cell, fw, obs, outcome>>
+  /\ UNCHANGED <<rules, files, part, phase, fi, vi, si, ei, ri, tested, dollar, index, file, cell, fw, obs, outcome, glob>>
 EndRules ==
   /\ Quiet /\ phase = "files" /\ level = "rule" /\ ~tested /\ ri > N("P")
   /\ level' = "elem"
-  /\ UNCHANGED <<rules, files, part, phase, fi, vi, si, ei, ri, tested, signal, dollar, index, file, cell, fw, obs, outcome>>
+  /\ UNCHANGED <<rules, files, part, phase, fi, vi, si, ei, ri, tested, signal, dollar, index, file, cell, fw, obs, outcome, glob>>
 
 \* ---- ENDFILE rules
 RunEndFile(sig, w) == Quiet /\ phase = "files" /\ level = "ef" /\ RunPlain(sig, w)
@@ -258,20 +265,20 @@ RunEndFile(sig, w) == Quiet /\ phase = "files" /\ level = "ef" /\ RunPlain(sig, 
 EndRoot ==
   /\ Quiet /\ phase = "files" /\ level = "ef" /\ ri > N("EF")
   /\ level' = "sel" /\ cell' = NoCell
-  /\ UNCHANGED <<rules, files, part, phase, fi, vi, si, ei, ri, tested, signal, dollar, index, file, fw, obs, outcome>>
+  /\ UNCHANGED <<rules, files, part, phase, fi, vi, si, ei, ri, tested, signal, dollar, index, file, fw, obs, outcome, glob>>
 
 \* ---- END rules, $ = null
 RunEnd(sig, w) == Quiet /\ phase = "end" /\ RunPlain(sig, w)
 Finish ==
   /\ Quiet /\ phase = "end" /\ ri > N("E")
   /\ phase' = "done" /\ outcome' = "ok"
-  /\ UNCHANGED <<rules, files, part, level, fi, vi, si, ei, ri, tested, signal, dollar, index, file, cell, fw, obs>>
+  /\ UNCHANGED <<rules, files, part, level, fi, vi, si, ei, ri, tested, signal, dollar, index, file, cell, fw, obs, glob>>
 
 \* ---- errExit at any level: the run ends at once, successfully
 Exit ==
   /\ signal = "exit" /\ phase # "done"
   /\ phase' = "done" /\ outcome' = "ok" /\ signal' = "none"
-  /\ UNCHANGED <<rules, files, part, level, fi, vi, si, ei, ri, tested, dollar, index, file, cell, fw, obs>>
+  /\ UNCHANGED <<rules, files, part, level, fi, vi, si, ei, ri, tested, dollar, index, file, cell, fw, obs, glob>>
 
 \* the actions that take no parameter and correspond to no logged event of the real code
 \* (NextValue, NextSelector, NextElement, ConsumeNext, Exit, Finish are parameterless too but are logged)
@@ -403,12 +410,20 @@ FreshBindings ==
 WritesLast ==
   HasPair =>
     /\ (InFiles(Prev) /\ Prev.w = "sf" /\ InFiles(Last) /\ SameRoot(Prev, Last)) => Last.fw = Prev.r
-    /\ (InFiles(Prev) /\ Prev.w \in {"none", "sd", "sm"} /\ InFiles(Last) /\ SameRoot(Prev, Last)) => Last.fw = Prev.fw
+    /\ (InFiles(Prev) /\ Prev.w \in {"none", "sd", "sm"} \cup GWrites /\ InFiles(Last) /\ SameRoot(Prev, Last)) => Last.fw = Prev.fw
     /\ (Prev.k = "P" /\ Last.k = "P" /\ SameRound(Prev, Last)) =>
           Last.cw = (IF Prev.w \in {"sd", "sm"} THEN Written(Prev.w, Prev.r) ELSE Prev.cw)
     /\ (Prev.k = "BF" /\ Last.k \in {"BF", "P"} /\ SameRoot(Prev, Last) /\ Last.en = -1) =>
           Last.cw = (IF Prev.w \in {"sd", "sm"} THEN Written(Prev.w, Prev.r) ELSE Prev.cw)
     /\ Last.w = "sm" => Last.cw[1] # "w"
+
+\* the program's own variable is not a binding of the schedule: it starts unset and from then on holds what the
+\* last body that wrote it left, for every later activation of the run (test or body, any kind, any round)
+GlobalPersists ==
+  /\ glob = (IF HasLast THEN GAfter(Last.g, Last.w) ELSE -1)
+  /\ (HasLast /\ Len(obs) = 1 /\ ObsKeep = 0) => Last.g = -1
+  /\ HasPair => Last.g = GAfter(Prev.g, Prev.w)
+  /\ HasLast => (Last.t = "test" => Last.w = "none")
 
 \* ElementMultiplicity: an array root of length n gets exactly the rounds 0..n-1
 \* in order, any other root exactly one.  Counted (when there is a pattern rule,
